@@ -74,22 +74,24 @@ SizeOf(f) == FoldSet(LAMBDA p, acc : Cardinality(f[p].r) + Len(f[p].p) + Cardina
 Fits      == SizeOf(cfg') <= MaxSize
 
 \* a pipeline is opened with one receiver and one exporter, so every reachable configuration is complete
-Open(p, x, y) == /\ cfg[p] = EmptyPipe /\ CanOpen(p)
+\* (the guard CanOpen(p) is conjoined once per pipeline in GNext, not once per choice of x and y)
+Open(p, x, y) == /\ cfg[p] = EmptyPipe
                  /\ cfg' = [cfg EXCEPT ![p] = [r |-> {x}, p |-> <<>>, e |-> {y}]] /\ Fits
-AddRcv(p, x)  == /\ p \in On /\ x \notin cfg[p].r
+AddRcv(p, x)  == /\ cfg[p] # EmptyPipe /\ x \notin cfg[p].r
                  /\ cfg' = [cfg EXCEPT ![p].r = @ \cup {x}] /\ Fits
-AddExp(p, x)  == /\ p \in On /\ x \notin cfg[p].e
+AddExp(p, x)  == /\ cfg[p] # EmptyPipe /\ x \notin cfg[p].e
                  /\ cfg' = [cfg EXCEPT ![p].e = @ \cup {x}] /\ Fits
-AddProc(p, x) == /\ p \in On /\ x \notin Range(cfg[p].p)
+AddProc(p, x) == /\ cfg[p] # EmptyPipe /\ x \notin Range(cfg[p].p)
                  /\ cfg' = [cfg EXCEPT ![p].p = Append(@, x)] /\ Fits
 \* connector c joins pipeline p (as exporter) to pipeline q (as receiver) in one step
-Link(p, c, q) == /\ p \in On /\ q \in On /\ (c \notin cfg[p].e \/ c \notin cfg[q].r)
+Link(p, c, q) == /\ cfg[p] # EmptyPipe /\ cfg[q] # EmptyPipe /\ (c \notin cfg[p].e \/ c \notin cfg[q].r)
                  /\ cfg' = IF p = q THEN [cfg EXCEPT ![p].e = @ \cup {c}, ![p].r = @ \cup {c}]
                            ELSE [cfg EXCEPT ![p].e = @ \cup {c}, ![q].r = @ \cup {c}]
                  /\ Fits
 
 GInit == cfg = EmptyCfg
-GNext == \E p \in Pipes : \/ \E x \in Rcvs \cup Conns, y \in Exps \cup Conns : Open(p, x, y)
+GNext == \E p \in Pipes : \/ /\ cfg[p] = EmptyPipe /\ CanOpen(p)
+                             /\ \E x \in Rcvs \cup Conns, y \in Exps \cup Conns : Open(p, x, y)
                           \/ \E x \in Rcvs \cup Conns : AddRcv(p, x)
                           \/ \E x \in Exps \cup Conns : AddExp(p, x)
                           \/ \E x \in Procs : AddProc(p, x)
